@@ -36,6 +36,7 @@ pub struct NodeSpec {
 pub struct Spec {
     pub nodes: Vec<NodeSpec>,
     payload: Vec<Rc<Vec<u8>>>,
+    rep_cache: std::cell::OnceCell<Vec<usize>>,
 }
 
 /// Payload of node `id` with total size `size`: a 4-byte header (id, 24-bit
@@ -86,7 +87,7 @@ impl Spec {
                 .map(|(i, n)| Rc::new(make_payload(i, n.size)))
                 .collect(),
         };
-        Spec { nodes, payload }
+        Spec { nodes, payload, rep_cache: Default::default() }
     }
 
     /// Generator self-check (harness invariant, not a property of the library).
@@ -202,26 +203,67 @@ impl Spec {
 
     // ---- structural predicates used for evidence and for the known-defect classes
     //
-    // Objects with identical content are one object for the compiler. Payloads
-    // embed the node id, so only zero-size nodes (which cannot have links) can
-    // coincide: they are merged into one representative here.
+    // Objects with identical content (bytes outside the offset fields, and
+    // offset fields pointing to identical objects) are ONE object for the
+    // compiler. `rep` maps every node to the first node with equal content;
+    // the predicates below work on these merged objects.
 
     fn rep(&self) -> Vec<usize> {
-        let z = self.nodes.iter().position(|n| n.size == 0);
-        (0..self.nodes.len())
-            .map(|i| if self.nodes[i].size == 0 { z.unwrap_or(i) } else { i })
-            .collect()
+        self.rep_cache.get_or_init(|| self.compute_rep()).clone()
     }
 
-    fn parents(&self) -> Vec<Vec<(usize, u8)>> {
-        let rep = self.rep();
+    fn compute_rep(&self) -> Vec<usize> {
+        let n = self.nodes.len();
+        let mut rep: Vec<usize> = (0..n).collect();
+        // children have higher indices: settle them first
+        for i in (0..n).rev() {
+            for j in (i + 1)..n {
+                if rep[j] != j || self.nodes[i].size != self.nodes[j].size || self.nodes[i].links.len() != self.nodes[j].links.len() {
+                    continue;
+                }
+                let (a, b) = (&self.nodes[i], &self.nodes[j]);
+                let same_links = a.links.iter().zip(&b.links).all(|(x, y)| {
+                    x.pos == y.pos && x.width == y.width && x.adj == y.adj && rep[x.to] == rep[y.to]
+                });
+                if !same_links {
+                    continue;
+                }
+                let (pa, pb) = (&self.payload[i], &self.payload[j]);
+                let mut cur = 0usize;
+                let mut same = true;
+                for l in &a.links {
+                    same &= pa[cur..l.pos as usize] == pb[cur..l.pos as usize];
+                    cur = (l.pos + l.width as u32) as usize;
+                }
+                same &= pa[cur..] == pb[cur..];
+                if same {
+                    // j > i: keep the smaller index as representative
+                    for r in rep.iter_mut() {
+                        if *r == j {
+                            *r = i;
+                        }
+                    }
+                }
+            }
+        }
+        rep
+    }
+
+    fn parents_with(&self, rep: &[usize]) -> Vec<Vec<(usize, u8)>> {
         let mut p = vec![vec![]; self.nodes.len()];
         for (i, n) in self.nodes.iter().enumerate() {
+            if rep[i] != i {
+                continue; // a merged copy: its links are its representative's links
+            }
             for l in &n.links {
                 p[rep[l.to]].push((i, l.width));
             }
         }
         p
+    }
+
+    fn parents(&self) -> Vec<Vec<(usize, u8)>> {
+        self.parents_with(&self.rep())
     }
 
     /// descendants-or-self of `r`
@@ -267,15 +309,18 @@ impl Spec {
         })
     }
 
-    /// Structural class of known defect 2 ("nested space roots are counted
-    /// twice", graph.rs isolate_subgraph_hb / find_subgraph_map_hb):
+    /// Structural class of known defect 2 ("links between nested space roots
+    /// are counted twice", graph.rs isolate_subgraph_hb / find_subgraph_map_hb):
     ///
     /// there are two objects R1 != R2 that are both targets of 32-bit links, R2
-    /// is a proper descendant of R1, and R2 has a proper descendant D with a
-    /// parent outside R2's subgraph. When R1 and R2 are isolated together the
-    /// links leaving R2 are counted twice, D's outside parent goes unnoticed, D
-    /// is moved without being duplicated and the space invariant asserted in
-    /// try_isolating_subgraphs breaks.
+    /// is a proper descendant of R1, and a descendant of R1 at or below R2 is
+    /// shared with the outside: either R2 itself also has a 16-bit parent, or a
+    /// proper descendant D of R2 has a parent outside R2's subgraph. When R1
+    /// and R2 are isolated together, R2's wide incoming link from inside the
+    /// set is counted both as "wide" and as "internal" and the links leaving
+    /// R2 are visited twice; the shared object's outside parent goes
+    /// unnoticed, it is moved to the new space without being duplicated, and
+    /// the space invariant asserted in try_isolating_subgraphs breaks.
     pub fn has_nested_wide_targets_with_shared_descendant(&self) -> bool {
         let parents = self.parents();
         let rep = self.rep();
@@ -283,13 +328,14 @@ impl Spec {
             .filter(|r| rep[*r] == *r && parents[*r].iter().any(|(_, w)| *w == 4))
             .collect();
         wide.iter().any(|r2| {
-            self.has_descendant_shared_with_outside(*r2, &parents)
+            (parents[*r2].iter().any(|(_, w)| *w == 2) || self.has_descendant_shared_with_outside(*r2, &parents))
                 && wide.iter().any(|r1| r1 != r2 && self.subgraph(*r1)[*r2])
         })
     }
 
     pub fn has_sharing(&self) -> bool {
-        self.parents().iter().any(|p| p.len() > 1)
+        let id: Vec<usize> = (0..self.nodes.len()).collect();
+        self.parents_with(&id).iter().any(|p| p.len() > 1)
     }
     pub fn has_multilink(&self) -> bool {
         self.nodes.iter().any(|n| {
